@@ -57,7 +57,7 @@ def _case(draw):
     return dict(spec=spec, sel=sel, spell=[draw(st.sampled_from(['name', 'pos', 'neg', 'name', 'pos'])) for _ in sel], route=route,
                 m=[draw(st.floats(0.85, 1.25)) for _ in sel], b=[draw(st.floats(0.0, 7.0)) for _ in sel],
                 fxn=draw(st.sampled_from(['sqrt', 'pow', 'exp', 'log1p'])), p=draw(st.floats(0.5, 2.0)),
-                gate_channels=draw(st.sampled_from(['all', 'selected'])), derived=draw(st.sampled_from([None, None, None, ['slice', 1], ['slice', 2], ['list', 1]])))
+                gate_channels=draw(st.sampled_from(['all', 'selected'])), derived=draw(st.sampled_from([None, None, None, ['slice', 1], ['slice', 2], ['list', 1], ['perm', 1], ['permname', 2]])))
 
 
 def strategy(tier):
